@@ -129,6 +129,7 @@ class Run(object):
 
 
 CUR = None  # the active Run
+LAST_SYMBOLIC_COUNT = None   # term of the last symbolic integer that was used as a concrete count (diagnostics for fpgrid)
 
 
 def cur():
@@ -538,6 +539,8 @@ class SInt(Opaque):
     return cur().decide(self.t != 0)
 
   def __index__(self):
+    global LAST_SYMBOLIC_COUNT
+    LAST_SYMBOLIC_COUNT = self.t
     raise PathAbort("symbolic integer used as a concrete count (loop bound / index)")
 
   __int__ = __index__
